@@ -54,6 +54,10 @@ class TokPE(pe.PE):
             if loc is not None:
                 el, fl = pe.fields_of(loc[1])
                 state.trace.append(("wr", fl[0] if fl else 0))
+                if (fl[0] if fl else 0) == self.F["depth"] and pe.is_const(val) and not (0 <= val[1] < self.max_depth):
+                    # the level index leaves the stack: nothing after this point is meaningful; the nesting-limit rules report it
+                    self.depth_oob = (val[1], sorted(state.roots.get("c", ()))[:4])
+                    self.abort = "level index %d outside the stack of %d records" % (val[1], self.max_depth)
         if addr[0] == "ptr" and addr[1] == "stack":
             state.trace.append(("wrstack",))
 
@@ -125,7 +129,7 @@ class TokPE(pe.PE):
                 nm = "c%d" % el
                 state.trace.append(("read", el))
                 if nm not in state.roots:
-                    state.roots[nm] = frozenset(self.byte_domain)
+                    state.roots[nm] = frozenset(getattr(self, "byte_domain2", None) or self.byte_domain)
                 return pe.R(nm)
             state.trace.append(("lookahead", path))
             if self.length < 0:
@@ -240,7 +244,11 @@ class Table:
         for rname, dom in (roots or {}).items():
             st.roots[rname] = frozenset(dom)
         args = [("ptr", "tok", ()), ("ptr", "input", ()), pe.C(length)]
+        h.depth_oob = None
         leaves = h.run(self.fn, args, st)
+        if h.depth_oob is not None:
+            self.stats.setdefault("out_of_range", []).append((cfg, h.depth_oob[0], h.depth_oob[1]))
+            leaves = [lf for lf in leaves if lf.kind != "abort"]
         self.stats["leaves"] += len(leaves)
         self.stats["steps"] += h.steps
         outs = []
@@ -486,6 +494,11 @@ class Table:
                 raise AnalysisBroken("tokener automaton has more than %d configurations" % limit)
             for o in outs:
                 if o.err in (0, 1) and o.next is not None:
+                    if o.next[0] < 0 or o.next[0] >= self.max_depth:
+                        # the level index left the stack: reported by the nesting-limit rules, not explored further
+                        self.stats.setdefault("out_of_range", []).append((cfg, o.next[0], sorted(o.bytes)[:4]))
+                        o.next = None
+                        continue
                     if any(None in lv for lv in o.next[1]) or None in o.next[2:5]:
                         raise AnalysisBroken("non-constant parser field after a step from %s" % self.cfg_str(cfg))
                     n = self.canon(o.next)
